@@ -100,6 +100,8 @@ where
     fn unwrap_pdu<'a>(&'a mut self, msg: Self::Message<'a>) -> Option<SnmpPdu<'a>>;
     //
     fn recv_socket<'a>(io: &mut Socket, buf: &'a mut Buffer) -> SnmpResult<&'a [u8]> {
+        #[cfg(gufo_snmp_verif)]
+        let io = &mut crate::verif::SimIo(io);
         match io.recv(buf.as_mut()) {
             Ok(s) => Ok(buf.as_slice(s)),
             Err(e) if e.kind() == std::io::ErrorKind::WouldBlock => Err(SnmpError::WouldBlock),
@@ -116,6 +118,12 @@ where
         let buf = pool.as_mut();
         self.push_pdu(pdu, buf)?;
         // Send message
+        #[cfg(gufo_snmp_verif)]
+        return crate::verif::SimIo(self.get_io())
+            .send(buf.data())
+            .map(|_| ())
+            .map_err(|e| SnmpError::SocketError(e.to_string()).into());
+        #[cfg(not(gufo_snmp_verif))]
         self.get_io()
             .send(buf.data())
             .map_err(|e| SnmpError::SocketError(e.to_string()))?;
